@@ -54,15 +54,16 @@ structure Ctx where
   sets : List Nat
   modelAgrees : Bool          -- the model reproduces the real (annotated) results exactly
   modelSites : List String    -- the model's panic site per step
+  prefixReuse : Bool          -- the model took a memo hit under a different static attribute prefix
 
 def mkCtx (hist : Bytes) (real : String) : Ctx :=
   let lines := historyLines hist
   let realSteps := real.splitOn ";"
   let steps := realSteps.map parseStep
-  let mres := runLines lines
+  let (mres, wf) := runLinesW lines
   let model := annotateWith (fun ls => (runLines ls).map (·.1)) lines (mres.map (·.1))
   { lines := lines, steps := steps, sets := stepSets lines (steps.map (·.res)),
-    modelAgrees := model == realSteps, modelSites := mres.map (·.2) }
+    modelAgrees := model == realSteps, modelSites := mres.map (·.2), prefixReuse := prefixReuseIn wf }
 
 /-- a failure is attributed to a listed finding only when the model reproduces the real behaviour -/
 def verdict (c : Ctx) (clause sig : String) : String :=
@@ -103,10 +104,12 @@ def c06 (c : Ctx) : String :=
     if !isExecOp (opOf (c.lines.getD i "")) || s.res == "skipped" || isPanic s.res then none
     else if sameObservable s.res s.fresh then none
     else
-      some (if isOk s.res && isAnalysisErr s.fresh then ("ok-but-fresh-set-rejects", "toplevel-after-callee")
-        else if isOk s.res && isOk s.fresh then ("output-differs-from-fresh-set", "double-sanitize")
-        else if isErr s.res && isOk s.fresh then ("error-but-fresh-set-succeeds", "failed-analysis-poisons-set")
-        else ("differs-from-fresh-set", "stale-error-memo"))
+      -- the one listed deviation: the memo key of a derived template leaves out the static attribute prefix
+      let sig := if c.prefixReuse then "memo-ignores-attr-prefix" else ""
+      some (if isOk s.res && isAnalysisErr s.fresh then ("ok-but-fresh-set-rejects", sig)
+        else if isOk s.res && isOk s.fresh then ("output-differs-from-fresh-set", sig)
+        else if isErr s.res && isOk s.fresh then ("error-but-fresh-set-succeeds", sig)
+        else ("differs-from-fresh-set", sig))
   match bad with
   | none => "pass"
   | some (cl, sig) => verdict c cl sig
@@ -132,7 +135,7 @@ def c05 (c : Ctx) : String :=
         some ("executes-after-failed-analysis", "")
       else if isAnalysisErr s.res && outHex s.res != "-" then some ("analysis-error-with-output", "")
       else if isAnalysisErr s.fresh && !isPanic s.res && !(isErr s.res && outHex s.res == "-") then
-        some ("runs-although-fresh-analysis-fails", "toplevel-after-callee")
+        some ("runs-although-fresh-analysis-fails", if c.prefixReuse then "memo-ignores-attr-prefix" else "")
       else none
   match sticky with
   | none => "pass"
@@ -167,7 +170,10 @@ def c07 (c : Ctx) : String :=
       let newAfter := (List.range i).any fun j =>
         fe < j && opOf (c.lines.getD j "") == "assocnew" && c.sets.getD j 0 == setI
       if executed then some ("clone-after-execute-accepted", if newAfter then "new-after-exec" else "") else none
-    else if isExecOp (opOf l) && !isPanic s.res && !sameObservable s.res s.frozen then
+    -- "no later output of the set changes": the same call on a fresh set with ALL definition steps made so far
+    -- must equal the call on a fresh set with only those made before the first execution (both references are
+    -- fresh real sets, so history-dependence of the escaper — C06 — does not enter here)
+    else if isExecOp (opOf l) && !isPanic s.fresh && !isPanic s.frozen && !sameObservable s.fresh s.frozen then
       let newAfter := (List.range i).any fun j =>
         fe < j && opOf (c.lines.getD j "") == "assocnew" && c.sets.getD j 0 == setI
       some ("output-changed-after-freeze", if newAfter then "new-after-exec" else "")
